@@ -174,9 +174,12 @@ Definition memo (V : Type) := option (dict V).
    `_memoize_cache` attribute of the object at hand.  A Python exception does not roll anything
    back, so a raising computation also returns the state it reached. *)
 Class lens (S V : Type) := { lget : S -> memo V; lput : memo V -> S -> S }.
+(* lvalid s: the object the lens points at exists in state s *)
 Class lens_ok {S V : Type} (L : lens S V) := {
-  get_put : forall m s, lget (lput m s) = m;
-  put_put : forall m m' s, lput m (lput m' s) = lput m s }.
+  lvalid : S -> Prop;
+  get_put : forall m s, lvalid s -> lget (lput m s) = m;
+  put_put : forall m m' s, lput m (lput m' s) = lput m s;
+  put_valid : forall m s, lvalid s -> lvalid (lput m s) }.
 
 Definition M (S A : Type) := S -> res A * S.
 
@@ -230,7 +233,7 @@ Notation "m ;;; f" := (bind m (fun _ => f)) (at level 61, right associativity).
 (* the one-object instance: the state IS the attribute *)
 #[export] Instance self_lens (V : Type) : lens (memo V) V := {| lget := fun s => s; lput := fun m _ => m |}.
 #[export] Instance self_lens_ok (V : Type) : lens_ok (self_lens V).
-Proof. split; reflexivity. Qed.
+Proof. refine {| lvalid := fun _ => True |}; intros; exact I || reflexivity. Defined.
 
 (* x[0] for a key x:  a tuple key yields its name; a bare str key yields its FIRST CHARACTER (a str of
    length one; IndexError on the empty str); a bare function key is not subscriptable (TypeError) *)
